@@ -490,7 +490,7 @@ def kv(line):
 
 
 def sweep_lines(rec):
-    out = {'N': {}, 'K': {}, 'M': [], 'X': {}, 'other': []}
+    out = {'N': {}, 'K': {}, 'M': [], 'X': {}, 'XC': {}, 'other': []}
     for l in rec.lines:
         t = l.split('\t')
         if t[0] == 'N':
@@ -499,6 +499,8 @@ def sweep_lines(rec):
             out['K'][t[1]] = int(t[2])
         elif t[0] == 'X':
             out['X'][t[1]] = int(t[2])
+        elif t[0] == 'XC':
+            out['XC'][(t[1], t[2])] = int(t[3])
         elif t[0] == 'M':
             out['M'].append(t[1:])
         else:
@@ -506,6 +508,7 @@ def sweep_lines(rec):
     return out
 
 
+U8_STRICT_CLASSES = ('lone-continuation', 'overlong2', 'overlong3', 'surrogate', 'overlong4', 'above-10FFFF', 'bad-continuation')
 U8_VERDICT = {'accepted-illformed': 'not-rejected', 'skipped-illformed': 'not-rejected'}
 
 
@@ -525,6 +528,14 @@ def eval_case(ck, c, rec):
         first = {}
         for m in sw['M']:
             first.setdefault(m[0], m)
+        if mode == 'u8sweep':
+            # How a sequence is rejected: ill-formedness that the first two bytes already show (Table 3-7 lead / second byte
+            # ranges, continuation bytes) is the library's "malformed UTF-8" condition, UTFDataFormatException
+            # (XMLExcepts::UTF8_*).  A generic TranscodingException for these classes means the dedicated test is gone and
+            # only the value-range backstop behind it caught the sequence.  Lead bytes F5..FF may use either.
+            for (cls, exc), cnt in sw['XC'].items():
+                if cls in U8_STRICT_CLASSES and not exc.startswith('UTFDataFormatException:'):
+                    yield ('u8:from:exception-type:%s' % cls, '%d ill-formed sequence(s) of class %s were rejected with %s instead of UTFDataFormatException' % (cnt, cls, exc), {'expected': 'UTFDataFormatException', 'observed': exc, 'count': cnt})
         for kind, cnt in sw['K'].items():
             m = first.get(kind, [kind])
             if mode == 'u8sweep':
@@ -915,6 +926,9 @@ def judge(ck, cases, recs, groups):
             for k, v in sw['X'].items():
                 exc_types[k] = exc_types.get(k, 0) + v
             if mode == 'u8sweep':
+                for (cls, exc), v in sw['XC'].items():
+                    d = cov.setdefault('u8_exception_by_class', {}).setdefault(cls, {})
+                    d[exc] = d.get(exc, 0) + v
                 ln = int(c.opt['len'])
                 if c.opt.get('base'):
                     u8_base[ln] += N.get('seqs', 0)
